@@ -885,7 +885,8 @@ impl RawAutomaton {
         let (transitions, markers) = RawAutomaton::filter_map_transitions(
             &transitions,
             |state| renaming.get(&state).copied(),
-            transitions.len() - self.final_states.len(),
+            // (The initial state is kept even when it is final.)
+            renaming.len(),
             0,
         );
         Self {
